@@ -1,6 +1,6 @@
 (* Entry points of the extracted model: one number per model function. *)
 From Coq Require Import ZArith List.
-From Tdda Require Import Base.Sexp RefTest.Argv RefTest.Tagged Serial.DateFmt.
+From Tdda Require Import Base.Sexp RefTest.Argv RefTest.Tagged Serial.DateFmt RefTest.CheckStrings.
 Import ListNotations.
 Open Scope Z_scope.
 
@@ -9,5 +9,7 @@ Definition dispatch (n : Z) (s : sexp) : sexp :=
   | 1 => argv_entry s
   | 2 => tagged_entry s
   | 3 => translate_entry s
+  | 4 => check_strings_entry s
+  | 5 => splitlines_entry s
   | _ => L [A (-1)]
   end.
